@@ -425,18 +425,25 @@ static void dns_case(void)
 	h2.ai_socktype = mc_choose(mc_param("stpr2", 2), 0, "socktype2") ? 0 : SOCK_STREAM;
 	int canon2 = mc_choose(2, 0, "canonname2");
 	if (canon2) h2.ai_flags |= EVUTIL_AI_CANONNAME;
+	/* service of the second request: "81", NULL or "0" (port 0: a hit must not keep the cached port).  Quick: derived from
+	 * the other choices so that both values meet every family / socktype / CANONNAME value; -P svc2=3: free choice */
+	static const char *const svc2s[] = { "81", NULL, "0" };
+	int nsvc = mc_param("svc2", 1);
+	int fam2i = h2.ai_family == PF_UNSPEC ? 0 : h2.ai_family == PF_INET ? 1 : 2;
+	const char *svc2 = svc2s[nsvc > 1 ? mc_choose(nsvc > 3 ? 3 : nsvc, 0, "service2") : ((fam2i + canon2 + (h2.ai_socktype ? 1 : 0) + age / 50) & 1)];
+	int port2 = svc2 ? atoi(svc2) : 0;
 	/* drain retransmissions of the first round, then age the cache */
 	dnse_ns_collect(msgs, 8);
 	advance_ms(age * 1000 - (int)((vclock_us - t_report) / 1000));
 	dnse_ns_collect(msgs, 8);
-	mc_observe("| age=%ds fam2=%s st2=%d canon2=%d ", age, famname(h2.ai_family), h2.ai_socktype, canon2);
+	mc_observe("| age=%ds fam2=%s st2=%d canon2=%d svc2=%s ", age, famname(h2.ai_family), h2.ai_socktype, canon2, svc2 ? svc2 : "NULL");
 	struct gai_result g2 = {0, 0, NULL};
 	long sent0 = dnse_udp_sent_total();
-	rq = evdns_getaddrinfo(dbase, DNAME, "81", &h2, gai_cb, &g2);
+	rq = evdns_getaddrinfo(dbase, DNAME, svc2, &h2, gai_cb, &g2);
 	pump();
 	n = dnse_ns_collect(msgs, 8);
 	int hit = g2.called && dnse_udp_sent_total() == sent0;
-	struct expect e2; memset(&e2, 0, sizeof e2); e2.port = 81; e2.node = DNAME;
+	struct expect e2; memset(&e2, 0, sizeof e2); e2.port = port2; e2.node = DNAME;
 	if (hit) {
 		MC_COUNT("cache_hits");
 		mc_observe("HIT ");
